@@ -309,6 +309,63 @@ impl SubCheck for C06 {
     }
 }
 
+/// Workspaces in which a crate defines a type with the same name as a type it (or a sibling file) imports from another
+/// crate, with relative paths and glob-free imports (the scoping family of C14): the arrival order of the per-file results
+/// must not decide which of the two a reference or an import line means.
+pub struct C06Scope;
+impl SubCheck for C06Scope {
+    type Case = crate::c14scope::Case;
+    fn name(&self) -> &'static str {
+        "c06-scoping"
+    }
+    fn strategy(&self, tier: Tier) -> BoxedStrategy<Self::Case> {
+        (crate::c14scope::C14Scope.strategy(tier), any::<bool>())
+            .prop_map(|(mut c, explicit)| {
+                c.explicit_foreign_clash = explicit;
+                c
+            })
+            .boxed()
+    }
+    fn eval(&self, run: &Run, c: &Self::Case, w: &mut Worker, counting: bool) -> Vec<Violation> {
+        let mut out = vec![];
+        let lang = c.lang;
+        let root = cli::fresh_dir(&w.scratch, "c06s");
+        let tree = root.join("tree");
+        cli::write_tree(&tree, &c.tree());
+        let Ok(base) = generate(&tree, &root.join("out0"), lang, true, &[]) else {
+            let _ = std::fs::remove_dir_all(&root);
+            return out;
+        };
+        if counting {
+            run.label(&format!("c06s/{}", lang.short()));
+            run.nontrivial(hash_of(&(serde_json::to_string(c).unwrap_or_default(),)));
+        }
+        let n = c.tree().len();
+        let seed = fnv(&[serde_json::to_string(c).unwrap_or_default().as_bytes()]);
+        for p in perms(n, if run.tier == Tier::Thorough { 120 } else { 24 }, seed) {
+            let spec = p.iter().map(|x| x.to_string()).collect::<Vec<_>>().join(",");
+            match generate(&tree, &root.join("outN"), lang, true, &[("TYPESHARE_VERIF_ORDER".into(), spec.clone())]) {
+                Ok(o) => {
+                    if o.0 != base.0 {
+                        let kind = moved_kind(lang, &base, &o, w);
+                        out.push(Violation::new(format!("scoping/folder/{}/order-dependent/{}", lang.short(), kind), format!("{} folder mode, same-named types in two crates: output under arrival order {spec} differs from the baseline run (first difference: {kind})", lang.name())));
+                        break;
+                    }
+                }
+                Err(r) => {
+                    out.push(Violation::new(format!("scoping/folder/{}/order-dependent/run-failed", lang.short()), format!("{}: run under arrival order {spec} failed (exit {:?}) while the baseline succeeded", lang.name(), r.code)));
+                    break;
+                }
+            }
+        }
+        let _ = std::fs::remove_dir_all(&root);
+        out
+    }
+    fn render(&self, c: &Self::Case) -> serde_json::Value {
+        crate::c14scope::C14Scope.render(c)
+    }
+}
+
 pub fn run(run: &Run) {
     run.set_rule("trees of 2-8 files in 1-4 crates holding 3-12 uniquely named items (structs, newtypes, unit structs, unit and tagged enums, aliases, consts) with serde renames; one language and one mode (single file / folder) per tree. Metamorphic oracle, compared byte for byte with a baseline run: (1) every arrival order of the per-file results at the collector (all n! for n <= 5 files, quick; n <= 6 thorough; 120/720 sampled beyond) via the hook; (2) 1,2,3,4,8,16 walker threads via the hook; (3) repeated unhooked processes (fresh hash seeds); (4) single-file mode: the same items re-split over other files and directories; (5) overlapping input directories on the command line (a file reached more than once): 2-16 walker threads and the default against the 1-thread run. Non-trivial = >= 3 producing files and >= 2 item kinds, or consts in >= 2 files; distinct by (tree, language, mode).");
     run.assume("hash-seed dependence is sampled (6 / 24 repeats per tree): a two-way seed-dependent choice escapes n repeats with probability 2^-n");
@@ -319,8 +376,14 @@ pub fn run(run: &Run) {
     }
     replay_regress(run, &C06);
     search(run, &C06, run.tier.pick(160, 1500));
+    run.assume("a second family reuses C14's scoping workspaces (same type name in two crates, relative paths) under 24 / 120 arrival orders");
+    replay_regress(run, &C06Scope);
+    search(run, &C06Scope, run.tier.pick(120, 1200));
 }
 
 pub fn replay(run: &Run, case: &serde_json::Value) -> Result<Vec<Violation>, String> {
+    if case.get("clash").is_some() {
+        return replay_case(run, &C06Scope, case);
+    }
     replay_case(run, &C06, case)
 }
